@@ -40,6 +40,7 @@ pub fn in_domain(cfg: &Cfg) -> bool {
 
 /// The round-trip oracle on one configuration.
 pub fn check(ctx: &mut Ctx, cfg: &Cfg, how: How) {
+    let _case = crate::watchdog::case_cfg("roundtrip", cfg, how);
     if !in_domain(cfg) {
         ctx.class("skipped:out-of-domain");
         return;
